@@ -771,7 +771,7 @@ int main(int argc, char** argv)
             callbacks.push_back(std::make_shared<Callback>(1, StepInterface::Filters{}, part, &sh));
             cbs.push_back({{"cb", 1}, {"dets", json::array()}, {"detmap", json::array()}, {"nonzero", false}});
         }
-        else if (dets >= 4)
+        else if (dets == 4 || dets == 5)
         {
             // SimpleCalo alone (it assumes it owns all detectors of the collector)
             std::vector<Label> labels = {Label{"inner"}};
@@ -788,19 +788,45 @@ int main(int argc, char** argv)
             }
             cbs.push_back({{"cb", 0}, {"dets", dv}, {"detmap", dm}, {"nonzero", f.nonzero_energy_deposition}});
         }
+        else if (dets == 8)
+        {
+            // unfiltered, and NO pre-step quantity in the union of the selections (no pre-step gather action at all)
+            StepSelection post_only;
+            post_only.energy_deposition = true;
+            post_only.event_id = true;
+            post_only.track_step_count = true;
+            post_only.step_length = true;
+            post_only.points[StepPoint::post].energy = true;
+            post_only.points[StepPoint::post].pos = true;
+            callbacks.push_back(std::make_shared<Callback>(0, StepInterface::Filters{}, post_only, &sh));
+            cbs.push_back({{"cb", 0}, {"dets", json::array()}, {"detmap", json::array()}, {"nonzero", false}});
+        }
         else
         {
+            // dets = 6, 7: detector maps whose combined selection has NO pre-step quantity (the volume ->
+            // detector lookup still has to happen at the pre-step point)
+            StepSelection post_only;
+            post_only.energy_deposition = true;
+            post_only.event_id = true;
+            post_only.track_step_count = true;
+            post_only.points[StepPoint::post].energy = true;
+            post_only.points[StepPoint::post].pos = true;
+            StepSelection dep_only;
+            dep_only.energy_deposition = true;
+            dep_only.particle = true;
+            StepSelection const sel1 = dets >= 6 ? post_only : StepSelection::all();
+            StepSelection const sel2 = dets >= 6 ? dep_only : StepSelection::all();
             StepInterface::Filters f1;
             f1.detectors[VolumeId{1}] = DetectorId{0};
             f1.nonzero_energy_deposition = (dets == 3);
-            callbacks.push_back(std::make_shared<Callback>(0, f1, StepSelection::all(), &sh));
+            callbacks.push_back(std::make_shared<Callback>(0, f1, sel1, &sh));
             cbs.push_back({{"cb", 0}, {"dets", {1}}, {"detmap", {{1, 0}}}, {"nonzero", dets == 3}});
-            if (dets >= 2)
+            if (dets >= 2 && dets != 6)
             {
                 StepInterface::Filters f2;
                 f2.detectors[VolumeId{2}] = DetectorId{1};
                 f2.nonzero_energy_deposition = true;
-                callbacks.push_back(std::make_shared<Callback>(1, f2, StepSelection::all(), &sh));
+                callbacks.push_back(std::make_shared<Callback>(1, f2, sel2, &sh));
                 cbs.push_back({{"cb", 1}, {"dets", {2}}, {"detmap", {{2, 1}}}, {"nonzero", true}});
             }
         }
